@@ -670,6 +670,12 @@ func symFloatBinop(op token.Token, k types.BasicKind, x, y value) value {
 		if isOneF(y) {
 			return x
 		}
+		if X.lemmaSqAbs && x == y && isSym(x) {
+			// lemmas L_sq_abs (x*x = |x|*|x|) and L_abs_sub (|b-a| = |a-b|): a squared
+			// difference becomes independent of the operand order
+			ax := symAbsAny(x.(*Sym))
+			return app(k, "fmul", p+"_mul", ax, ax)
+		}
 		if argKey(x) > argKey(y) {
 			x, y = y, x
 		}
@@ -1027,4 +1033,15 @@ func matchAdd0(x, y value) (value, value, bool) {
 		return ay, x, true
 	}
 	return nil, nil, false
+}
+
+// symAbsAny builds |x| with the canonical operand order for differences.
+func symAbsAny(x *Sym) value {
+	if x.op == "fabs" {
+		return x
+	}
+	if x.op == "fsub" && argKey(x.args[0]) > argKey(x.args[1]) {
+		x = app(x.kind, "fsub", fpfx(x.kind)+"_sub", x.args[1], x.args[0])
+	}
+	return app(x.kind, "fabs", "fp.abs", x)
 }
